@@ -1,0 +1,10 @@
+//go:build verif
+
+package thrift
+
+// Read-only state projection for the /verif trace recorder (ReaderSkipDecoder buffer model).
+
+// VerifState returns the number of bytes of the current value read so far and the length and capacity of the decoder's private buffer.
+func (p *ReaderSkipDecoder) VerifState() (n, blen, bcap int) {
+	return p.n, len(p.b), cap(p.b)
+}
